@@ -81,6 +81,39 @@ def _execute_one(pid: str, seed: int, tier: str):
 
 
 def _worker(args):
+    """Run one chunk in a child forked from this (never used) pool worker.
+
+    The process-wide state a case can see is then exactly what the earlier cases of the *same chunk* left
+    behind, which makes a history-dependent violation replayable as "chunk prefix + case".
+    """
+    import pickle
+
+    r, w = os.pipe()
+    child = os.fork()
+    if child == 0:
+        code = 0
+        try:
+            os.close(r)
+            data = pickle.dumps(_worker_chunk(args))
+            with os.fdopen(w, "wb") as fh:
+                fh.write(data)
+        except BaseException:  # noqa: BLE001
+            traceback.print_exc()
+            code = 3
+        finally:
+            os._exit(code)
+    os.close(w)
+    with os.fdopen(r, "rb") as fh:
+        data = fh.read()
+    _, status = os.waitpid(child, 0)
+    if status != 0 or not data:
+        pid_, tier_, batch_, indices_, _ = args
+        return [{"idx": indices_[0], "seed": core.run_seed(batch_, pid_, indices_[0]),
+                 "harness_error": "chunk %d..%d died with wait status %d" % (indices_[0], indices_[-1], status)}]
+    return pickle.loads(data)
+
+
+def _worker_chunk(args):
     pid, tier, batch, indices, want_samples = args
     faulthandler.enable()
     results = []
@@ -92,6 +125,7 @@ def _worker(args):
             rec = {
                 "idx": idx,
                 "seed": seed,
+                "chunk_start": indices[0],
                 "viols": [v.to_json() for v in viols],
                 "stats": stats,
                 "keys": keys,
@@ -144,15 +178,17 @@ def shrink(prop, case: dict, oracle: str, known: list[dict], budget: int = 400) 
     return case, tries
 
 
-def write_replay(pid: str, case: dict, v: Violation, original_len: int, tries: int) -> str:
+def write_replay(pid: str, case: dict, v: Violation, original_len: int, tries: int, prefix_seeds=None, tier="quick") -> str:
     os.makedirs(REPLAY_DIR, exist_ok=True)
     name = "%s-%d-%s.json" % (pid, case.get("seed", 0), v.oracle.replace(".", "_"))
     path = os.path.join(REPLAY_DIR, name)
+    doc = {"property": pid, "case": case, "violation": v.to_json(), "original_ops": original_len, "shrink_tries": tries}
+    if prefix_seeds:
+        doc["prefix_seeds"] = list(prefix_seeds)
+        doc["tier"] = tier
+        doc["note"] = "history-dependent: the cases generated from prefix_seeds are executed first, in this order, in the same process"
     with open(path, "w") as fh:
-        json.dump(
-            {"property": pid, "case": case, "violation": v.to_json(), "original_ops": original_len, "shrink_tries": tries},
-            fh, indent=1, sort_keys=True, ensure_ascii=False,
-        )
+        json.dump(doc, fh, indent=1, sort_keys=True, ensure_ascii=False)
     return path
 
 
@@ -165,6 +201,12 @@ def replay_file(path: str) -> int:
         data = json.load(fh)
     pid = data["property"]
     prop = PROPERTIES[pid]
+    # history in the same process: cases that ran before the violating one (regenerated from their seeds)
+    for seed in data.get("prefix_seeds", []):
+        try:
+            prop.execute(prop.generate(seed, data.get("tier", "quick")))
+        except Exception:  # noqa: BLE001
+            pass
     viols, _, _ = prop.execute(data["case"])
     want = data["violation"]["oracle"]
     hit = [v for v in viols if v.oracle == want]
@@ -306,16 +348,50 @@ def check(pid: str, tier: str, runs: int | None = None) -> int:
     for oracle in sorted(unknown):
         hits = unknown[oracle]
         hits.sort(key=lambda rv: (len(rv[0]["case"].get("ops", [])) + len(rv[0]["case"].get("doc", "")) / 1000.0, rv[0]["idx"]))
-        rec, v = hits[0]
-        case = rec["case"]
-        if hasattr(prop, "refine"):
-            case = prop.refine(case, v)
-        original = len(case.get("ops", []))
-        small, tries = shrink(prop, case, oracle, known)
-        v2 = still_fails(prop, small, oracle, known) or v
-        path = write_replay(pid, small, v2, original, tries)
-        if not _replay_in_fresh_process(path):
-            harness_errors.append("minimised case %s does not reproduce in a fresh interpreter" % path)
+        # candidates for the report: the minimised smallest hit first; if that does not reproduce in a fresh
+        # interpreter (outcomes that depend on allocator state, e.g. address reuse) the unminimised case and
+        # then further hits are tried -- a case is only ever reported if its replay file reproduces
+        path = None
+        for rec, v in hits[:4]:
+            case = rec["case"]
+            if hasattr(prop, "refine"):
+                case = prop.refine(case, v)
+            original = len(case.get("ops", []))
+            small, tries = shrink(prop, case, oracle, known)
+            v2 = still_fails(prop, small, oracle, known) or v
+            cand = write_replay(pid, small, v2, original, tries)
+            if _replay_in_fresh_process(cand):
+                path = cand
+                break
+            cand = write_replay(pid, case, v, original, 0)
+            if _replay_in_fresh_process(cand):
+                path, small, v2 = cand, case, v
+                print("note: the minimised case did not reproduce in a fresh interpreter; reporting the unminimised one")
+                break
+            # history-dependent: replay the cases that ran before it in the same (forked) chunk process,
+            # then minimise that prefix by halving
+            prefix = [core.run_seed(batch, pid, k) for k in range(rec.get("chunk_start", rec["idx"]), rec["idx"])]
+            if prefix:
+                cand = write_replay(pid, rec["case"], v, original, 0, prefix_seeds=prefix, tier=tier)
+                if _replay_in_fresh_process(cand):
+                    size = len(prefix) // 2
+                    while size >= 1 and len(prefix) > 1:
+                        shrunk = False
+                        for start in range(0, len(prefix), size):
+                            trial = prefix[:start] + prefix[start + size:]
+                            write_replay(pid, rec["case"], v, original, 0, prefix_seeds=trial, tier=tier)
+                            if _replay_in_fresh_process(cand):
+                                prefix = trial
+                                shrunk = True
+                                break
+                        if not shrunk:
+                            size //= 2
+                    cand = write_replay(pid, rec["case"], v, original, 0, prefix_seeds=prefix, tier=tier)
+                    path, small, v2 = cand, rec["case"], v
+                    print("note: history-dependent violation; replay file carries %d preceding case(s)" % len(prefix))
+                    break
+        if path is None:
+            harness_errors.append("%d case(s) violating %s found, none reproduces in a fresh interpreter (last replay %s)" % (len(hits), oracle, cand))
             continue
         violation_lines.append("VIOLATION property=%s replay=%s" % (pid, path))
         print("VIOLATION property=%s replay=%s" % (pid, path))
